@@ -373,6 +373,271 @@ from pyvc.native import NativeCheck
 import os, tempfile, shutil, subprocess, sys, json, types
 
 
+# ----------------------------------------------------------------------------
+# what one dispatch carries: gather_data_for_call_variant
+# ----------------------------------------------------------------------------
+TXID = z3.Function('transcript_id_at', I_, I_)          # position in tx_ids -> transcript
+GENE_OF = z3.Function('gene_of_transcript', I_, I_)
+CHROM_OF = z3.Function('chromosome_of_transcript', I_, I_)
+
+
+def _tx(t):
+    return SymObj('TxId06', t=t if is_z3(t) else z3.IntVal(t))
+
+
+class _TxIds(View):
+    """tx_ids = [tx_id] + additional transcripts"""
+    def __init__(self, m):
+        self.m = m
+
+    def length(self):
+        return self.m + 1
+
+    def get(self, j):
+        return _tx(TXID(j if is_z3(j) else z3.IntVal(j)))
+
+    def sym_contains(self, I, item):
+        j = z3.Int('j_in_tx_ids')
+        return z3.Exists([j], z3.And(0 <= j, j <= self.m, TXID(j) == item.fields['t']))
+
+
+class _Additional:
+    def __init__(self, m):
+        self.m = m
+
+    def sym_binop(self, I, op, other, reflected):
+        if op == '+' and reflected and isinstance(other, list) and len(other) == 1 and isinstance(other[0], SymObj) and other[0].cls == 'TxId06':
+            I.e.assume(TXID(0) == other[0].fields['t'])
+            return _TxIds(self.m)
+        return NotImplemented
+
+
+class _GeneTxList(View):
+    """the transcripts of a gene model (ids of unknown number)"""
+    def __init__(self, e, g):
+        self.g = g
+        self.n = e.int('n_gene_transcripts')
+        e.assume(self.n >= 0)
+        self.ids = e.array('gene_transcript_ids')
+
+    def length(self):
+        return self.n
+
+    def get(self, j):
+        return _tx(self.ids[j if is_z3(j) else z3.IntVal(j)])
+
+
+class _GhostSeqDict:
+    """tx_seqs / gene_seqs: every write is checked when it happens"""
+    def __init__(self, owner, kind):
+        self.owner, self.kind = owner, kind
+
+    def sym_contains(self, I, item):
+        return I.e.bool(f'{self.kind}_already_present')
+
+    def sym_setitem(self, I, key, val):
+        self.owner.check_write(I, self.kind, key, val)
+        self.owner._cur.writes.append((self.kind, key, val))
+
+
+@register
+class GatherData(Contract):
+    """the dispatch of a transcript: None iff it has no variants / none of the requested kind (or, with --skip-failed, its variants cannot
+    be read - counted as invalid); otherwise the sequence of every transcript involved comes from that transcript's own chromosome, the
+    sequence of every gene involved from the chromosome of a transcript of that gene, the annotation handed on is restricted to the
+    transcripts involved and built from copies (the reference annotation is not modified), and the run's own cleavage parameters and
+    flags are carried unchanged"""
+    path, qualname, props = CVP, 'VariantPeptideCaller.gather_data_for_call_variant', ('C06', 'C15', 'C07')
+    declared_raises = ['ValueError']
+    assumptions = ('external: VariantRecordPoolOnDisk lookups (return a series or raise ValueError / KeyError), the series predicates, '
+                   'get_transcript_sequence / get_gene_sequence (functions of the model and the chromosome sequence), copy.deepcopy (a new object)',
+                   'a set comprehension over the transcripts is treated as a sequence that may repeat elements (per-element obligations only)')
+
+    def setup(self, I):
+        e = I.e
+        st = types.SimpleNamespace(writes=[], anno_ctor=[], ref_ctor=[], pool_sets=[], lookups=[])
+        st.M = e.int('n_additional')
+        e.assume(st.M >= 0)
+        st.main = e.int('main_tx')
+        st.skip_failed = e.bool('skip_failed')
+        st.noncanonical = e.bool('noncanonical_transcripts')
+        st.cleavage = SymObj('CleavageParams')
+        st.flags = dict(max_adjacent_as_mnv=e.int('max_adjacent_as_mnv'), truncate_sec=e.bool('truncate_sec'), w2f_reassignment=e.bool('w2f_reassignment'))
+        st.argv = dict(timeout_seconds=e.int('timeout'), max_variants_per_node=[e.int('mvpn')], additional_variants_per_misc=[e.int('avpm')],
+                       backsplicing_only=e.bool('backsplicing_only'), coding_novel_orf=e.bool('coding_novel_orf'), skip_failed=st.skip_failed)
+        st.source = SymObj('AnnoSource')
+        c = self
+
+        tx_table = types.SimpleNamespace(sym_getitem=lambda I2, key: c.tx_model(key))
+        gene_table = types.SimpleNamespace(sym_getitem=lambda I2, key: c.gene_model(key))
+        st.anno = SymObj('GenomicAnnotationStub', transcripts=tx_table, genes=gene_table, source=st.source)
+        st.genome = types.SimpleNamespace(sym_getitem=lambda I2, key: SymObj('ChromSeq', c=key.fields['c']))
+        st.ref = SymObj('ReferenceData', anno=st.anno, genome=st.genome)
+        st.series = SymObj('Series06')
+        st.pool = SymObj('PoolOnDisk06')
+        st.self = SymObj('VariantPeptideCaller', reference_data=st.ref, args=SymObj('Namespace', **st.argv), tally=SymObj('Tally', n_transcripts_invalid=e.int('n_invalid')),
+                         noncanonical_transcripts=st.noncanonical, cleavage_params=st.cleavage, graph_output_dir=SymObj('Dir') if e.branch(e.bool('save_graph'), 'graph dir') else None,
+                         **st.flags)
+        st.invalid0 = st.self.fields['tally'].fields['n_transcripts_invalid']
+        st.args = [st.self, _tx(st.main), st.pool]
+        st.models = {}
+        self._cur = st
+        self._I = I
+        return st
+
+    def tx_model(self, key):
+        st = self._cur
+        t = key.fields['t']
+        k = z3.simplify(t).sexpr()
+        if k not in st.models:
+            st.models[k] = SymObj('TxModel06', t=t, transcript=SymObj('Tx06', gene_id=SymObj('GeneId06', g=GENE_OF(t)), chrom=SymObj('Chrom06', c=CHROM_OF(t))))
+        return st.models[k]
+
+    def gene_model(self, key):
+        return SymObj('GeneModel06', g=key.fields['g'], transcripts=_GeneTxList(self._I.e, key.fields['g']), _original=True)
+
+    def check_write(self, I, kind, key, val):
+        e = I.e
+        if kind == 'tx_seqs':
+            ok = isinstance(val, SymObj) and val.cls == 'TxSeq06' and isinstance(key, SymObj) and key.cls == 'TxId06'
+            e.prove('C15/gather/transcript-sequence-from-its-own-chromosome',
+                    z3.And(val.fields['t'] == key.fields['t'], val.fields['c'] == CHROM_OF(key.fields['t'])) if ok else False)
+        else:
+            ok = isinstance(val, SymObj) and val.cls == 'GeneSeq06' and isinstance(key, SymObj) and key.cls == 'GeneId06'
+            t = z3.Int('t_of_gene')
+            e.prove('C15/gather/gene-sequence-from-the-chromosome-of-a-transcript-of-that-gene',
+                    z3.And(val.fields['g'] == key.fields['g'],
+                           z3.Exists([t], z3.And(GENE_OF(t) == key.fields['g'], CHROM_OF(t) == val.fields['c']))) if ok else False)
+
+    @property
+    def models(self):
+        c = self
+
+        def inst(reg):
+            def lookup(I, o, key):
+                st = c._cur
+                st.lookups.append(key)
+                if len(st.lookups) == 1:
+                    I.e.prove('C06/gather/variants-of-this-transcript-looked-up', key.fields['t'] is st.main or z3.is_true(z3.simplify(key.fields['t'] == st.main)))
+                    if I.e.branch(I.e.bool('series_unreadable'), 'pool raises'):
+                        raise PyRaise(SymExc('ValueError', ['bad series']))
+                    return st.series
+                if I.e.branch(I.e.bool('additional_has_no_variants'), 'KeyError'):
+                    raise PyRaise(SymExc('KeyError', ['no variants']))
+                return SymObj('Series06b', t=key.fields['t'])
+            reg.protocol_('PoolOnDisk06', '__getitem__', lookup)
+            reg.method_('Series06', 'is_empty', lambda I, o, a, k: I.e.bool('series_is_empty'))
+            reg.method_('Series06', 'has_any_noncanonical_transcripts', lambda I, o, a, k: I.e.bool('series_has_noncanonical'))
+            reg.method_('Series06', 'is_gene_sequence_needed', lambda I, o, a, k: I.e.bool('gene_sequence_needed'))
+            reg.method_('Series06', 'get_additional_transcripts', lambda I, o, a, k: _Additional(c._cur.M))
+            reg.method_('TxModel06', 'get_transcript_sequence', lambda I, o, a, k: SymObj('TxSeq06', t=o.fields['t'], c=a[0].fields['c']))
+            reg.method_('GeneModel06', 'get_gene_sequence', lambda I, o, a, k: SymObj('GeneSeq06', g=o.fields['g'], c=a[0].fields['c']))
+            reg.protocol_('GeneId06', '__eq__', lambda I, a, b: a.fields['g'] == b.fields['g'] if isinstance(b, SymObj) and b.cls == 'GeneId06' else False)
+            reg.protocol_('TxId06', '__eq__', lambda I, a, b: a.fields['t'] == b.fields['t'] if isinstance(b, SymObj) and b.cls == 'TxId06' else False)
+
+            def deepcopy(I, a, k):
+                v = a[0]
+                if isinstance(v, SymObj) and v.cls == 'GeneModel06':
+                    return SymObj('GeneModel06', **{**v.fields, '_original': False})
+                raise Unsupported(f'copy.deepcopy({v!r})')
+            reg.ext_('copy.deepcopy', deepcopy)
+
+            def guard(I, o, v):
+                I.e.prove('C06/gather/reference-annotation-not-modified (only the copy is restricted)', o.fields.get('_original') is False)
+                o.fields['transcripts'] = v
+            reg._setattr[('GeneModel06', 'transcripts')] = guard
+
+            def comp(I, node, env, view, kind):
+                st = c._cur
+                from pyvc.interp import Env
+                g = node.generators[0]
+                j = z3.Int('j_comp')
+                sub = Env({}, env)
+                if kind == 'dict' and isinstance(view, _TxIds):
+                    I.assign(g.target, view.get(j), sub)
+                    kk, vv = I.eval(node.key, sub), I.eval(node.value, sub)
+                    I.e.prove('C06/gather/annotation-table-maps-each-involved-transcript-to-its-own-model',
+                              isinstance(kk, SymObj) and kk.cls == 'TxId06' and isinstance(vv, SymObj) and vv.cls == 'TxModel06'
+                              and z3.is_true(z3.simplify(z3.And(kk.fields['t'] == TXID(j), vv.fields['t'] == TXID(j)))))
+                    return SymObj('TxTableOf06', ids=view)
+                if kind == 'list' and isinstance(view, _GeneTxList) and len(g.ifs) == 1:
+                    x = SymObj('TxId06', t=z3.Int('t_member'))
+                    I.assign(g.target, x, sub)
+                    cond = as_bool(I.truth(I.eval(g.ifs[0], sub)))
+                    keep = I.eval(node.elt, sub)
+                    I.e.prove('C06/gather/gene-keeps-exactly-its-transcripts-that-are-involved', z3.And(keep is x, cond == env['tx_ids'].sym_contains(I, x)))
+                    return SymObj('FilteredGeneTxList06', g=view.g)
+                return None
+            reg.comprehension_hooks.append(comp)
+            orig_as_view = None
+            reg.ctor_('GenomicAnnotation', lambda I, a, k: (c._cur.anno_ctor.append(k), SymObj('DummyAnno06', **k))[1])
+            reg.ctor_('ReferenceData', lambda I, a, k: (c._cur.ref_ctor.append(k), SymObj('DummyRef06', **k))[1])
+            reg.ctor_('VariantRecordPool', lambda I, a, k: SymObj('DummyPool06', data=types.SimpleNamespace(sym_setitem=lambda I2, key, v: c._cur.pool_sets.append((key, v))), anno=None))
+            reg.protocol_('DummyPool06', '__setitem__', lambda I, o, key, v: c._cur.pool_sets.append((key, v)))
+        return (inst,)
+
+    # loop 0: for _tx_id in tx_ids
+    def init0(self, I, env):
+        st = self._cur
+        gs = env['gene_seqs']
+        if isinstance(gs, dict):
+            for key, val in gs.items():
+                self.check_write(I, 'gene_seqs', key, val)
+                I.e.prove('C15/gather/first-gene-sequence-is-that-of-the-main-transcript', z3.And(key.fields['g'] == GENE_OF(st.main), val.fields['c'] == CHROM_OF(st.main)))
+
+    def havoc0(self, I, env, k):
+        env['tx_seqs'], env['gene_seqs'] = _GhostSeqDict(self, 'tx_seqs'), _GhostSeqDict(self, 'gene_seqs')
+
+    def head0(self, I, env, k):
+        self._cur.mark = len(self._cur.writes)
+
+    def step0(self, I, env, k):
+        st = self._cur
+        w = st.writes[st.mark:]
+        txw = [x for x in w if x[0] == 'tx_seqs']
+        gw = [x for x in w if x[0] == 'gene_seqs']
+        return [('sequence-of-the-k-th-transcript-stored-once', len(txw) == 1 and z3.is_true(z3.simplify(txw[0][1].fields['t'] == TXID(k)))),
+                ('gene-of-the-k-th-transcript-stored-unless-present', len(gw) <= 1 and all(z3.is_true(z3.simplify(x[1].fields['g'] == GENE_OF(TXID(k)))) for x in gw))]
+
+    @property
+    def loops(self):
+        T = lambda I, env, k: []
+        return {0: LoopSpec(inv=T, on_init=self.init0, havoc=self.havoc0, on_head=self.head0, step=self.step0),
+                1: LoopSpec(inv=T, havoc=lambda I, env, k: env.__setitem__('gene_models', types.SimpleNamespace(sym_setitem=lambda I2, key, v: None))),
+                2: LoopSpec(inv=T)}
+
+    def post_return(self, I, st, ret):
+        e = I.e
+        inv_now = st.self.fields['tally'].fields['n_transcripts_invalid']
+        if ret is None:
+            e.prove('C07/gather/invalid-count-changes-only-for-an-unreadable-series-under-skip-failed',
+                    z3.Or(inv_now == st.invalid0, z3.And(st.skip_failed, inv_now == st.invalid0 + 1)))
+            return
+        ok = isinstance(ret, dict)
+        e.prove('C06/gather/returns-a-dispatch', ok)
+        if not ok:
+            return
+        e.prove('C07/gather/invalid-count-untouched-for-a-dispatch', inv_now == st.invalid0)
+        e.prove('C06/gather/dispatch-is-for-this-transcript-with-its-own-series', z3.And(ret['tx_id'].fields['t'] == st.main, ret['variant_series'] is st.series))
+        e.prove('C06/gather/dispatch-carries-the-run-parameters-unchanged',
+                ret['cleavage_params'] is st.cleavage and ret['noncanonical_transcripts'] is st.noncanonical
+                and all(ret[n] is v for n, v in st.flags.items()) and ret['timeout'] is st.argv['timeout_seconds']
+                and ret['backsplicing_only'] is st.argv['backsplicing_only'] and ret['coding_novel_orf'] is st.argv['coding_novel_orf']
+                and ret['skip_failed'] is st.skip_failed and ret['max_variants_per_node'] == tuple(st.argv['max_variants_per_node'])
+                and ret['additional_variants_per_misc'] == tuple(st.argv['additional_variants_per_misc'])
+                and ret['save_graph'] == (st.self.fields['graph_output_dir'] is not None))
+        e.prove('C06/gather/sequences-collected-are-handed-on', isinstance(ret['tx_seqs'], (_GhostSeqDict, dict)) and isinstance(ret['gene_seqs'], (_GhostSeqDict, dict)))
+        okr = len(st.ref_ctor) == 1 and len(st.anno_ctor) == 1 and isinstance(ret['reference_data'], SymObj) and ret['reference_data'].cls == 'DummyRef06'
+        e.prove('C06/gather/reference-handed-on-is-the-restricted-annotation-without-genome',
+                okr and st.ref_ctor[0].get('genome') is None and isinstance(st.ref_ctor[0].get('anno'), SymObj) and st.ref_ctor[0]['anno'].cls == 'DummyAnno06'
+                and isinstance(st.anno_ctor[0].get('transcripts'), SymObj) and st.anno_ctor[0]['transcripts'].cls == 'TxTableOf06' and st.anno_ctor[0].get('source') is st.source)
+        e.prove('C06/gather/pool-handed-on-holds-the-series-of-this-transcript',
+                len(st.pool_sets) >= 1 and st.pool_sets[0][1] is st.series and z3.is_true(z3.simplify(st.pool_sets[0][0].fields['t'] == st.main)))
+
+    def post_raise(self, I, st, exc):
+        I.e.prove('C07/gather/raise/only-an-unreadable-series-without-skip-failed', z3.And(exc.cls == 'ValueError', z3.Not(st.skip_failed)))
+
+
 class NativePairedRuns(NativeCheck):
     name = 'paired_runs'
     props = ('C06',)
